@@ -33,7 +33,7 @@ class Track:
     """One trace under construction."""
 
     def __init__(self, node, sw=None, folder: Optional[str] = None, files: Tuple[Optional[str], Optional[str]] = (None, None),
-                 meta: Optional[Dict[str, Any]] = None):
+                 meta: Optional[Dict[str, Any]] = None, declared: Optional[Dict[str, int]] = None):
         self.node, self.sw, self.folder_name, self.file_names = node, sw, folder, list(files)
         self.host = node.config.hostname
         self.meta = dict(meta or {})
@@ -54,6 +54,9 @@ class Track:
             "fov": self.shadow["fov"],
             "inst": bool(sw is not None and getattr(sw.operating_state, "name", "") == "INSTALLING"),
         }
+        # durations the SCENARIO states (when the caller knows them) win over what the built objects say: "the configured
+        # duration" is the one written in the scenario, an object that did not take it over is the thing to find
+        self.cfg.update({k: int(v) for k, v in (declared or {}).items()})
 
     # -- objects by name -----------------------------------------------------------------
     def folder(self):
